@@ -577,6 +577,8 @@ def rne(x):
 
 def smin(*a):
     if len(a) == 1:
+        if not isinstance(a[0], (list, tuple, np.ndarray)):
+            return a[0]
         a = list(a[0])
     if not any(isinstance(v, (Sym, SymB)) for v in a):
         return builtins.min(*a)
@@ -589,6 +591,8 @@ def smin(*a):
 
 def smax(*a):
     if len(a) == 1:
+        if not isinstance(a[0], (list, tuple, np.ndarray)):
+            return a[0]
         a = list(a[0])
     if not any(isinstance(v, (Sym, SymB)) for v in a):
         return builtins.max(*a)
